@@ -180,6 +180,7 @@ pub fn program_scenario(
         shards: 1,
         nontrivial: !input.is_empty(),
         unbounded: false,
+        loop_body: false,
     }
 }
 
